@@ -105,9 +105,16 @@ type vOp struct {
 	w       *vRespWriter
 }
 
-func verifC18_AdminAPI() {
+func verifC18_AdminAPI() { vAdminAPI(true) }
+
+// verifC18_AdminMembers: the same contract when the requests go, one after the other, to
+// DIFFERENT members of the cluster (each member runs its own api.Server; they share nothing
+// but the store and the cluster lock).
+func verifC18_AdminMembers() { vAdminAPI(false) }
+
+func vAdminAPI(concurrent bool) {
 	store := &vStore{kv: map[string]string{}, lk: &vLock{}}
-	s := &Server{cluster: store, super: &supervisor.Supervisor{}}
+	members := []*Server{{cluster: store, super: &supervisor.Supervisor{}}, {cluster: store, super: &supervisor.Supervisor{}}}
 	v0 := int64(7)
 	store.kv["/config/version"] = "7"
 	names := []string{"a", "b"}
@@ -120,7 +127,7 @@ func verifC18_AdminAPI() {
 	}
 	n := verifBound("requests")
 	ops := make([]*vOp, n)
-	toks := []string{"t0", "t1", "t2"}
+	toks := []string{"t0", "t1", "t2", "t3"}
 	for i := 0; i < n; i++ {
 		op := &vOp{kind: verifChoose("op", 3), name: names[verifChoose("name", 2)], objKind: kinds[verifChoose("kind", 2)], tok: toks[i],
 			w: &vRespWriter{hdr: http.Header{}}}
@@ -130,8 +137,15 @@ func verifC18_AdminAPI() {
 	var wg sync.WaitGroup
 	for _, op := range ops {
 		op := op
+		s := members[0]
+		if !concurrent {
+			s = members[verifChoose("member", 2)]
+			if s == members[1] {
+				verifCover("request-to-another-member")
+			}
+		}
 		wg.Add(1)
-		go func() {
+		run := func() {
 			defer wg.Done()
 			r := &http.Request{Method: "X", URL: &url.URL{Path: "/objects"}, Body: &vBodyReader{s: op.tok}}
 			switch op.kind {
@@ -144,13 +158,18 @@ func verifC18_AdminAPI() {
 				vNames[r] = op.name
 				s.deleteObject(op.w, r)
 			}
-		}()
+		}
+		if concurrent {
+			go run()
+		} else {
+			run()
+		}
 	}
 	wg.Wait()
 
 	// successful mutations carry distinct versions v0+1 .. v0+m without gaps
 	succ := 0
-	var seen [4]bool
+	var seen [6]bool
 	for _, op := range ops {
 		ok := op.w.status == 0 || op.w.status == 200 || op.w.status == 201
 		if !ok {
